@@ -278,6 +278,41 @@ Proof.
   destruct G as [_ Gt]. intros H. apply matches_iff in H. now rewrite H.
 Qed.
 
+(* ---------- the decision is a function of (filter, peer) only ---------- *)
+Lemma guard_is_the_filter_test : accept_guard = [GMatches] /\ accept_guard_kind = ServeInThen
+                              \/ accept_guard = [GNotMatches] /\ accept_guard_kind = RejectInThen.
+Proof. left. split; reflexivity. Qed.
+
+Theorem gate_decision o hist f peer : served accept_guard accept_guard_kind o hist f peer = matches f peer.
+Proof.
+  destruct guard_is_the_filter_test as [[-> ->]|[-> ->]]; cbn.
+  - now rewrite Bool.andb_true_r.
+  - rewrite Bool.andb_true_r. apply Bool.negb_involutive.
+Qed.
+
+Theorem gate_decision_admits o hist f peer : served accept_guard accept_guard_kind o hist f peer = true <-> admits f peer.
+Proof. rewrite gate_decision. apply matches_iff. Qed.
+
+Theorem gate_history_free o o' hist hist' f peer :
+  served accept_guard accept_guard_kind o hist f peer = served accept_guard accept_guard_kind o' hist' f peer.
+Proof. now rewrite !gate_decision. Qed.
+
+Theorem gate_sequence o f peers : forall hist,
+  serve_seq accept_guard accept_guard_kind o hist f peers = map (matches f) peers.
+Proof.
+  induction peers as [|p rest IH]; intro hist; cbn [serve_seq map]; [reflexivity|].
+  now rewrite gate_decision, IH.
+Qed.
+
+Theorem gate_sequence_admits o f peers hist k p :
+  nth_error peers k = Some p ->
+  exists b, nth_error (serve_seq accept_guard accept_guard_kind o hist f peers) k = Some b /\ (b = true <-> admits f p).
+Proof.
+  intro H. rewrite gate_sequence. exists (matches f p). split.
+  - now rewrite nth_error_map, H.
+  - apply matches_iff.
+Qed.
+
 Theorem gate_callgraph :
   forallb (fun fn => negb (reach_unguarded 8 fn))
           ["handle"; "run_session"; "tokio::spawn"; "conn_handler.handle"; "tls_handshake"; "SessionTask::new"]%string = true
